@@ -106,31 +106,26 @@ theorem drop_cons_of_lt {xs : List Nat} {i : Nat} (hi : i < xs.length) :
   ⟨xs[i], List.getElem?_eq_getElem hi, List.drop_eq_getElem_cons hi⟩
 
 theorem containsLoop_eq {l : RawList} (hw : l.elems.length = l.len) (v : Nat) :
-    ∀ n i, i + n = l.len → containsLoop l v i n = .ok ((l.elems.drop i).contains v)
+    ∀ n i, i + n = l.len → containsLoop l v i n = .ok (anyEq v (l.elems.drop i))
   | 0, i, h => by
     have : l.elems.drop i = [] := List.drop_eq_nil_of_le (by omega)
-    simp [containsLoop, this]
+    simp [containsLoop, this, anyEq]
   | n + 1, i, h => by
     obtain ⟨x, hx, hd⟩ := drop_cons_of_lt (xs := l.elems) (i := i) (by omega)
     unfold containsLoop
     rw [rawGet_eq hw, hx, hd]
     simp only []
-    by_cases he : x = v
-    · simp [he]
+    by_cases he : elemEq x v = true
+    · simp [he, anyEq]
     · rw [if_neg he, containsLoop_eq hw v n (i + 1) (by omega)]
-      have : (x == v) = false := by simp [he]
-      simp [List.contains_cons, this, Ne.symm he]
+      have he' : elemEq x v = false := by simpa using he
+      simp [anyEq, he']
 
 theorem rawContains_eq {l : RawList} (hw : l.elems.length = l.len) (v : Nat) :
-    rawContains l v = .ok (l.elems.contains v) := by
+    rawContains l v = .ok (anyEq v l.elems) := by
   unfold rawContains
-  rw [containsLoop_eq hw v l.len 0 (by omega)]
+  rw [contains_loop_count_eq, containsLoop_eq hw v l.len 0 (by omega)]
   simp
-
-/-- first position of `v`, as `Vec::iter().position` gives it -/
-def firstIdx (v : Nat) : List Nat → Nat → Option Nat
-  | [], _ => none
-  | x :: xs, i => if x = v then some i else firstIdx v xs (i + 1)
 
 theorem indexLoop_eq {l : RawList} (hw : l.elems.length = l.len) (v : Nat) :
     ∀ n i, i + n = l.len → indexLoop l v i n = .ok (firstIdx v (l.elems.drop i) i)
@@ -142,7 +137,7 @@ theorem indexLoop_eq {l : RawList} (hw : l.elems.length = l.len) (v : Nat) :
     unfold indexLoop
     rw [rawGet_eq hw, hx, hd]
     simp only []
-    by_cases he : x = v
+    by_cases he : elemEq x v = true
     · simp [he, firstIdx]
     · rw [if_neg he, indexLoop_eq hw v n (i + 1) (by omega)]
       simp [firstIdx, he]
@@ -150,53 +145,103 @@ theorem indexLoop_eq {l : RawList} (hw : l.elems.length = l.len) (v : Nat) :
 theorem rawIndex_eq {l : RawList} (hw : l.elems.length = l.len) (v : Nat) :
     rawIndex l v = .ok (firstIdx v l.elems 0) := by
   unfold rawIndex
-  rw [indexLoop_eq hw v l.len 0 (by omega)]
+  rw [index_loop_count_eq, indexLoop_eq hw v l.len 0 (by omega)]
   simp
 
-theorem firstIdx_spec (v : Nat) : ∀ (xs : List Nat) (i : Nat),
+/-! ### element equality: plain values compare by identity -/
+
+theorem elemEq_plain {x y : Nat} (h : x < f64Base ∨ y < f64Base) : elemEq x y = (x == y) := by
+  unfold elemEq
+  have : ¬ (f64Base ≤ x ∧ f64Base ≤ y) := by omega
+  rw [if_neg this]
+
+theorem listEq_length : ∀ {xs ys : List Nat}, listEq xs ys = true → xs.length = ys.length
+  | [], [], _ => rfl
+  | [], _ :: _, h => by simp [listEq] at h
+  | _ :: _, [], h => by simp [listEq] at h
+  | x :: xs, y :: ys, h => by
+    simp only [listEq, Bool.and_eq_true] at h
+    simp [listEq_length h.2]
+
+/-- a list is equal to itself iff each of its elements is (no NaN in it) -/
+theorem listEq_self : ∀ (xs : List Nat), listEq xs xs = xs.all (fun e => elemEq e e)
+  | [] => rfl
+  | x :: xs => by simp [listEq, listEq_self xs]
+
+/-- on plain element values (`u8`, `u64`, string / token ids, handles) the `==`
+    of two lists is equality of the sequences -/
+theorem listEq_plain : ∀ {xs ys : List Nat}, (∀ x ∈ xs, x < f64Base) →
+    listEq xs ys = decide (xs = ys)
+  | [], [], _ => by simp [listEq]
+  | [], _ :: _, _ => by simp [listEq]
+  | _ :: _, [], _ => by simp [listEq]
+  | x :: xs, y :: ys, h => by
+    have hx : x < f64Base := h x (by simp)
+    have ih := listEq_plain (xs := xs) (ys := ys) (fun z hz => h z (by simp [hz]))
+    simp only [listEq, elemEq_plain (Or.inl hx), ih]
+    by_cases hxy : x = y <;> by_cases hl : xs = ys <;> simp [hxy, hl]
+
+theorem anyEq_plain {v : Nat} (hv : v < f64Base) (xs : List Nat) : anyEq v xs = xs.contains v := by
+  induction xs with
+  | nil => simp [anyEq]
+  | cons x xs ih =>
+    simp only [anyEq, List.any_cons, List.contains_cons] at ih ⊢
+    rw [ih, elemEq_plain (Or.inr hv)]
+    by_cases hxv : x = v
+    · subst hxv; simp
+    · have h1 : (x == v) = false := by simp [hxv]
+      have h2 : (v == x) = false := by simp [Ne.symm hxv]
+      simp [h1, h2]
+
+theorem firstIdx_plain {v : Nat} (hv : v < f64Base) : ∀ (xs : List Nat) (i : Nat),
     firstIdx v xs i = if xs.contains v then some (i + xs.idxOf v) else none
   | [], i => by simp [firstIdx]
   | x :: xs, i => by
     unfold firstIdx
+    rw [elemEq_plain (Or.inr hv)]
     by_cases he : x = v
     · subst he; simp [List.idxOf_cons]
-    · rw [if_neg he, firstIdx_spec v xs (i + 1)]
-      have hne : (x == v) = false := by simp [he]
+    · have hne : (x == v) = false := by simp [he]
       have hne' : (v == x) = false := by simp [Ne.symm he]
-      rw [List.contains_cons, hne', Bool.false_or, List.idxOf_cons, hne]
-      split
-      · simp; omega
-      · rfl
+      simp only [hne, Bool.false_eq_true, if_false]
+      rw [firstIdx_plain hv xs (i + 1), List.contains_cons, hne', Bool.false_or, List.idxOf_cons, hne]
+      by_cases hc : xs.contains v = true
+      · simp only [hc, if_true, cond_false, Option.some.injEq]; omega
+      · simp only [hc, Bool.false_eq_true, if_false]
 
 theorem eqLoop_eq {a b : RawList} (ha : a.elems.length = a.len) (hb : b.elems.length = b.len)
     (hl : a.len = b.len) :
-    ∀ n i, i + n = a.len → eqLoop a b i n = .ok (decide (a.elems.drop i = b.elems.drop i))
+    ∀ n i, i + n = a.len → eqLoop a b i n = .ok (listEq (a.elems.drop i) (b.elems.drop i))
   | 0, i, h => by
     have h1 : a.elems.drop i = [] := List.drop_eq_nil_of_le (by omega)
     have h2 : b.elems.drop i = [] := List.drop_eq_nil_of_le (by omega)
-    simp [eqLoop, h1, h2]
+    simp [eqLoop, h1, h2, listEq]
   | n + 1, i, h => by
     obtain ⟨x, hx, hda⟩ := drop_cons_of_lt (xs := a.elems) (i := i) (by omega)
     obtain ⟨y, hy, hdb⟩ := drop_cons_of_lt (xs := b.elems) (i := i) (by omega)
     unfold eqLoop
     rw [rawGet_eq ha, rawGet_eq hb, hx, hy, hda, hdb]
     simp only []
-    by_cases he : x = y
+    by_cases he : elemEq x y = true
     · rw [if_pos he, eqLoop_eq ha hb hl n (i + 1) (by omega)]
-      simp [he]
+      simp [listEq, he]
     · rw [if_neg he]
-      simp [he]
+      have he' : elemEq x y = false := by simpa using he
+      simp [listEq, he']
 
 theorem rawEqErased_eq {a b : RawList} (ha : a.elems.length = a.len) (hb : b.elems.length = b.len) :
-    rawEqErased a b = .ok (decide (a.elems = b.elems)) := by
+    rawEqErased a b = .ok (listEq a.elems b.elems) := by
   unfold rawEqErased
   rw [eq_len_differs_eq]
   by_cases hl : a.len = b.len
   · simp only [hl, ne_eq, not_true_eq_false, decide_false, Bool.false_eq_true, if_false]
     have := eqLoop_eq ha hb hl a.len 0 (by omega)
     simp only [List.drop_zero] at this
-    rw [← hl]; exact this
-  · have hne : a.elems ≠ b.elems := fun h => hl (by rw [← ha, ← hb, h])
+    rw [eq_loop_count_eq a b hl]; exact this
+  · have hne : listEq a.elems b.elems = false := by
+      cases hq : listEq a.elems b.elems with
+      | false => rfl
+      | true => exact absurd (by rw [← ha, ← hb]; exact listEq_length hq) hl
     simp [hl, hne]
 
 theorem readAll_eq {l : RawList} (hw : l.elems.length = l.len) : readAll l = .ok l.elems := by
@@ -206,7 +251,7 @@ theorem readAll_eq {l : RawList} (hw : l.elems.length = l.len) : readAll l = .ok
   rw [← hw, List.take_length]
 
 theorem rawEqTyped_eq {a b : RawList} (ha : a.elems.length = a.len) (hb : b.elems.length = b.len) :
-    rawEqTyped a b = .ok (decide (a.elems = b.elems)) := by
+    rawEqTyped a b = .ok (listEq a.elems b.elems) := by
   unfold rawEqTyped
   rw [readAll_eq ha, readAll_eq hb]
 
